@@ -5,7 +5,7 @@ ROOT = os.path.dirname(os.path.dirname(os.path.abspath(__file__)))
 sys.path.insert(0, os.path.join(ROOT, "tools"))
 from propcfg import PROPS, MANIFEST_TEXT, NOT_APPLICABLE
 props = [json.loads(l) for l in open(os.path.join(ROOT, "properties.jsonl"))]
-hook_commits = ["052d655", "c190402", "d464e7e"]
+hook_commits = ["052d655", "c190402", "d464e7e", "2a252e6"]
 checks = []
 for p in props:
     pid = p["id"]
